@@ -116,7 +116,8 @@ func (e *Enc) rangeCopy(dst, src Val, d, s, n T) Val {
 		e.qCtr++
 		j := T{d.S, fmt.Sprintf("j!%d", e.qCtr)}
 		in := And(e.sle(d, j), e.slt(j, e.addIdx(d, n)))
-		val := Ite(in, Select(srcA, e.addIdx(s, e.subIdx(j, d))), Select(dstA, j))
+		// read the source through the same index function as ordinary element reads (see elemIndex)
+		val := Ite(in, Select(srcA, e.elemIndex(s, e.subIdx(j, d))), Select(dstA, j))
 		// z3: array lambda (select reduces by beta-reduction); cvc5: constant plus quantified axiom
 		e.emit(fmt.Sprintf("#z3 (define-fun %s () %s (lambda ((%s %s)) %s))", name, r.S, j.E, d.S, val.E))
 		e.emit(fmt.Sprintf("#cvc5 (declare-const %s %s)", name, r.S))
